@@ -64,9 +64,13 @@ theorem lstep_E (J : List Str) (p o : Str) (c : Char) :
          | none => ⟨.X, o⟩)
       else if J.any (fun e => (p ++ [c]).isPrefixOf e) then ⟨.E (p ++ [c]), o⟩ else ⟨.X, o⟩ := by
   simp only [lstep]
-  split
-  · split <;> simp_all
-  · split <;> rfl
+  by_cases h1 : p ++ [c] ∈ J
+  · simp only [h1, if_true]
+  · simp only [h1, if_false]
+    by_cases h2 : J.any (fun e => (p ++ [c]).isPrefixOf e) = true
+    · simp only [h2, if_true]
+    · have : J.any (fun e => (p ++ [c]).isPrefixOf e) = false := by simpa using h2
+      simp only [this, Bool.false_eq_true, if_false]
 
 /-- reading the rest of an escape sequence of `J` from inside it ends in the string with the character appended -/
 theorem lrun_escape (J : List Str) (hJ : EscSet J) (e : Str) (he : e ∈ J) (d : Char) (hd : escTable.lookup e = some d) :
